@@ -241,6 +241,10 @@ func (bal *BalanceGslb) BackendReload(clusterBackend cluster_table_conf.ClusterB
 	for _, subCluster := range bal.subClusters {
 		if backend, ok := clusterBackend[subCluster.Name]; ok {
 			subCluster.update(backend)
+		} else {
+			// sub cluster is no longer in cluster table: release its backends,
+			// as a fresh BackendInit would leave it empty
+			subCluster.update(nil)
 		}
 	}
 
